@@ -11,6 +11,9 @@ import (
 func main() {
 	t0 := time.Now()
 	e := eng.New()
+	if os.Getenv("PROBE_ROOT") != "" {
+		e.E.Analyzer.Catalog.MySQLDb.AddRootAccount()
+	}
 	s := e.NewSession("root")
 	for _, q := range os.Args[1:] {
 		r := s.Exec(q)
